@@ -301,6 +301,31 @@ def oracle_statsmodels(case, ctx):
     ctx.label(kind)
     ctx.mark_nontrivial(case["start"] != 0 or any(h <= 0 for h in steps) or o.get("seasonal") is not None
                         or steps != list(range(1, len(steps) + 1)))
+    m = case.get("moved") or 0
+    if m and not discs:
+        # new observations arrive and only the cutoff moves on (update_params=False): the
+        # fitted smoothing model is the same, so the forecast for a time point is the model's
+        # forecast for THAT time point, now m steps further from the end of the fitted data
+        vals = [float(v) for v in case["values"]]
+        more = gen.build_series(vals + vals[:m][::-1], case["start"], case["index_kind"]).iloc[n:]
+        u = sut(f.update, more, None, False)
+        if isinstance(u, Raised):
+            return discs + [unexpected(u, "update(update_params=False)")]
+        steps2 = [h for h in steps if h > -(n + m - 1)]
+        p2 = sut(f.predict, gen.build_fh(steps2, "list"))
+        if isinstance(p2, Raised):
+            return discs + [unexpected(p2, "predict(%s) after update(update_params=False)" % steps2)]
+        cutoff2 = int(more.index[-1])
+        if [int(i) for i in p2.index] != [cutoff2 + h for h in steps2]:
+            return discs + [D("forecast_index", "after %d new observations fh=%s index=%s" % (m, steps2, list(p2.index)))]
+        pos = [n - 1 + m + h for h in steps2]
+        whole = np.asarray(ref.predict(min(pos), max(pos)), dtype=float)
+        exp2 = [whole[q - min(pos)] for q in pos]
+        got2 = p2.to_numpy(dtype=float)
+        ctx.label("cutoff_moved_without_refit")
+        if not np.allclose(got2, exp2, rtol=1e-9, atol=1e-9, equal_nan=True):
+            discs.append(D("statsmodels_differential_after_moving_cutoff:%s" % kind, "%s start=%d %d new observations fh=%s got %s expected %s"
+                           % (o, case["start"], m, steps2, got2.tolist(), list(map(float, exp2)))))
     return discs
 
 
@@ -319,7 +344,7 @@ def sm_cases(draw):
             "init": draw(st.sampled_from(["estimated", "estimated", "heuristic", "known"]))}
     if model == "ets":
         opts["error"] = draw(st.sampled_from(["add", "mul"]))
-    return {"model": model, "opts": opts, "values": vals, "fh": steps,
+    return {"model": model, "opts": opts, "values": vals, "fh": steps, "moved": draw(st.sampled_from([0, 0, 1, 2, 5])),
             "start": draw(gen.index_start), "index_kind": draw(gen.index_kind)}
 
 
